@@ -260,7 +260,9 @@ class PageRenderer:
             header_rtf = self.encoding_service.encode_column_header(
                 header_copy.text, header_copy, document.rtf_page.col_width
             )
-            header_elements.extend(header_rtf)
+            # A header without text (and no auto-population) renders nothing
+            if header_rtf:
+                header_elements.extend(header_rtf)
 
         return header_elements
 
